@@ -224,6 +224,14 @@ func (s *sharedEntryAttributes) toXmlInternal(parent *etree.Element, onlyNewOrUp
 			if xmlAddChoiceCaseDeletes(newElem, caseSwitchElems, operationWithNamespace, useOperationRemove) {
 				overallDoAdd = true
 			}
+			// a presence container whose own value is to be written shows up also
+			// if none of its (non-default) children has anything to write
+			if !overallDoAdd && s.parent != nil && s.schema.GetContainer().IsPresence && !s.leafVariants.shouldDelete() {
+				if le := s.leafVariants.GetHighestPrecedence(onlyNewOrUpdated, false); le != nil {
+					xmlAddNamespaceConditional(s, s.parent, newElem, honorNamespace)
+					overallDoAdd = true
+				}
+			}
 			// so if there is at least a child and the s.parent is not nil (root node)
 			// then add p to the parent as a child
 			if overallDoAdd && s.parent != nil {
